@@ -194,7 +194,7 @@ def run(ctx):
         origin, d = trees.mixed_tree(ctx, rng, p_parsed=0.7)
         cases.append((d, rng.random() < 0.5, " "))
     reqs, exp = [], []
-    hist = trees.SharedObjects(ctx, rng, "OpenRangeTransformer", known_params={"tree"})
+    hist = trees.SharedObjects(ctx, rng, "OpenRangeTransformer", known_params={"tree"}, raw=lambda r, t: r(t))
     for ci, (d, merge, add_head) in enumerate(cases):
         o = common.load_tree(d)
         snap = trees.snapshot(o)
